@@ -105,6 +105,14 @@ def one_case(rec, rng, cid, keys):
     # -- same array object evaluated again after in-place edits (abscissa
     # reversed in place; the array returned before post-processed in place)
     Fkeep = F.copy()
+    # -- a later evaluation (same length, other parameters) must not write
+    # into the array handed out before
+    pother = gen.nanite_params(mk, dict(prm, baseline=b0 + 1e-9))
+    Fother = md.model(pother, xin)
+    rec.check(Fother is not F and np.array_equal(F, Fkeep),
+              "repeatability/earlier-result-overwritten",
+              "the array returned by one evaluation was changed by the next "
+              "one", case)
     xin[:] = x_before[::-1]
     F2 = md.model(p, xin)
     rec.event("re-evaluations on the same array object")
